@@ -388,6 +388,9 @@ bool StepExtended(ScriptExecutionEnvironment& env, CScript::const_iterator& pc, 
         {
             CScriptNum num1(vch1, env.fRequireMinimal, 5);
             CScriptNum num2(vch2, env.fRequireMinimal, 5);
+            // division by zero and out-of-range shift counts are script errors, not crashes
+            if ((env.opcode == OP_DIV || env.opcode == OP_MOD) && num2 == 0) return set_error(serror, SCRIPT_ERR_UNKNOWN_ERROR);
+            if ((env.opcode == OP_LSHIFT || env.opcode == OP_RSHIFT) && (num2 < 0 || num2 > 63)) return set_error(serror, SCRIPT_ERR_UNKNOWN_ERROR);
             switch (env.opcode) {
             case OP_MUL: num1 = num1 * num2; break;
             case OP_DIV: num1 = num1 / num2; break;
